@@ -44,14 +44,14 @@ PROPS = {
     "C02": {"lean": ["QF.Props.C02", "QF.Props.C02Spec", "QF.Props.C02Mirror", "QF.Props.C02Kernels", "QF.Props.C02Dispatch"], "extra_ns": ["QF.Props.C02Spec", "QF.Props.C02Mirror", "QF.Props.C02Kernels", "QF.Props.C02Dispatch"],
             "sections": [hist("hist", ["filter"]),
                          {"section": "hist", "tag": "hist-filter", "opt": "ops=filter+filter+filter+filter+sort+slice+distinct", "quick": 400, "thorough": 4000, "cover_ops": {"filter"}}]},
-    "C03": {"lean": ["QF.Props.C03", "QF.Props.C03Spec", "QF.Props.C03Compare"], "extra_ns": ["QF.Props.C03Compare"],
+    "C03": {"lean": ["QF.Props.C03", "QF.Props.C03Spec", "QF.Props.C03Compare", "QF.Props.C10Guards"], "extra_ns": ["QF.Props.C03Compare", "QF.Props.C10Guards"],
             "sections": [hist("hist", ["sort"]),
                          {"section": "sortadv", "quick": 300, "thorough": 3000, "cover_ops": {"SA"}}]},
-    "C04": {"lean": ["QF.Props.C04", "QF.Props.C04Spec", "QF.Props.C03Compare", "QF.Props.C04Hash", "QF.Props.C04Aggregations"], "extra_ns": ["QF.Props.C04Spec", "QF.Props.C03Compare", "QF.Props.C04Hash", "QF.Props.C04Aggregations"],
+    "C04": {"lean": ["QF.Props.C04", "QF.Props.C04Spec", "QF.Props.C03Compare", "QF.Props.C04Hash", "QF.Props.C04Aggregations", "QF.Props.C10Guards"], "extra_ns": ["QF.Props.C04Spec", "QF.Props.C03Compare", "QF.Props.C04Hash", "QF.Props.C04Aggregations", "QF.Props.C10Guards"],
             "sections": [hist("hist", ["groupagg", "groupframes", "permute", "grouptest"], quick=300, cover=["groupagg", "groupframes"]),
                          {"section": "grpadv", "quick": 600, "thorough": 6000, "cover_ops": {"GA"}},
                          {"section": "grpadv", "tag": "grpbig", "opt": "big=1", "quick": 1, "thorough": 4, "cover_ops": {"GB"}}]},
-    "C05": {"lean": ["QF.Props.C05", "QF.Props.C05Distinct", "QF.Props.C04", "QF.Props.C04Spec", "QF.Props.C03Compare", "QF.Props.C04Hash"], "extra_ns": ["QF.Props.C04", "QF.Props.C04Spec", "QF.Props.C03Compare", "QF.Props.C04Hash"], "sections": [hist("hist", ["distinct"])]},
+    "C05": {"lean": ["QF.Props.C05", "QF.Props.C05Distinct", "QF.Props.C04", "QF.Props.C04Spec", "QF.Props.C03Compare", "QF.Props.C04Hash", "QF.Props.C10Guards"], "extra_ns": ["QF.Props.C04", "QF.Props.C04Spec", "QF.Props.C03Compare", "QF.Props.C04Hash", "QF.Props.C10Guards"], "sections": [hist("hist", ["distinct"])]},
     "C06": {"lean": ["QF.Props.C06", "QF.Props.C06Apply"],
             "sections": [{"section": "hist", "tag": "hist-wit", "opt": "wit=1", "quick": 1, "thorough": 1, "cover_ops": {"fapply"}},
                          hist("hist", ["apply", "fapply", "rownums"])]},
@@ -115,7 +115,7 @@ PROPS = {
                          {"section": "csvraw", "tag": "csvrawfaults", "opt": "faults=1", "quick": 60, "thorough": 600, "cover_ops": {"C"}},
                          {"section": "csvread", "tag": "csvreadfaults", "opt": "faults=1", "quick": 400, "thorough": 4000, "cover_ops": {"CV"}}],
             "rule": "cases = (document, schedule, failing call number); csvraw enumerates every call number of the chosen schedule per document (schedules of more than 160 calls: the first 64, the last 32 and 64 drawn ones); distinct by transcript line"},
-    "C10": {"lean": ["QF.Props.C10", "QF.Props.C10Sticky", "QF.Props.C06", "QF.Props.C06Apply", "QF.Props.C08Project", "QF.Props.C08Guards"], "extra_ns": ["QF.Props.C10Sticky", "QF.Props.C06", "QF.Props.C08", "QF.Props.C08Guards"], "sections": [dict(hist("hist", []), cover_ops=None)]},
+    "C10": {"lean": ["QF.Props.C10", "QF.Props.C10Sticky", "QF.Props.C06", "QF.Props.C06Apply", "QF.Props.C08Project", "QF.Props.C08Guards", "QF.Props.C10Guards"], "extra_ns": ["QF.Props.C10Sticky", "QF.Props.C06", "QF.Props.C08", "QF.Props.C08Guards", "QF.Props.C10Guards"], "sections": [dict(hist("hist", []), cover_ops=None)]},
 }
 
 NOT_APPLICABLE = {}
